@@ -1,7 +1,7 @@
 from common import COMMON_TB
 
 PROP = {
-    "suites": ["c17"],
+    "suites": ["c17", "smcli"],
     "lean_modules": ["Lc.Props.C17"],
     "leanchecker": True,
     "trusted_base": COMMON_TB + [
